@@ -1017,7 +1017,8 @@ fn main() {
                     machinery(format!("chains: {c} = 0, the case the space is meant for never occurs"));
                 }
             }
-            if false && !total.outcomes.keys().any(|k| k.starts_with("walk_stack chain: context > frame-pointer > fpo > fpo > framedata then end of stack")) {
+            // frames are labelled by how they were FOUND: leaf (context), f (frame pointer), f (fpo), main (fpo)
+            if !total.outcomes.contains_key("walk_stack chain: context > frame-pointer > fpo > fpo then end of stack") {
                 machinery("chains: no complete leaf > f > f > main chain in the reference".into());
             }
             let some: u64 = total.outcomes.iter().filter(|(k, _)| k.contains(": Some")).map(|(_, v)| *v).sum();
